@@ -280,6 +280,7 @@ class RefEval(object):
                 if sg.condition is None or sg.condition(t, dt):
                     self._run_leaf(sg, t, dt)
             if g.update_nnps:
+                require_finite_geometry(self.nnps)
                 self.nnps.update_domain()
                 self.nnps.update()
             if g.post:
@@ -391,10 +392,33 @@ class RefEval(object):
                         raise RefUndefined('python-only exception %r in '
                                            'reduce' % (ex,))
         if g.update_nnps:
+            require_finite_geometry(self.nnps)
             self.nnps.update_domain()
             self.nnps.update()
         if g.post:
             g.post()
+
+
+def require_finite_geometry(nnps):
+    """A neighbour structure can only be rebuilt from finite coordinates and
+    smoothing lengths (binning a NaN is a float->int conversion with no
+    defined result, in C a wild cell index).  A state that has lost them has
+    no defined continuation."""
+    for pa in nnps.particles:
+        for p in ('x', 'y', 'z', 'h'):
+            a = pa.get_carray(p).get_npy_array()
+            if len(a) and not np.isfinite(a).all():
+                raise RefUndefined('non-finite %s in array %s before a '
+                                   'neighbour update' % (p, pa.name))
+    # a 1D/2D neighbour search is defined for particles on a line/in a plane
+    # (the cell grid of LinkedListNNPS has one layer there; a second layer of
+    # cells is a write past the end of its head array)
+    for ax in ('x', 'y', 'z')[nnps.dim:]:
+        vals = [pa.get_carray(ax).get_npy_array() for pa in nnps.particles]
+        vals = [v for v in vals if len(v)]
+        if vals and (min(v.min() for v in vals) != max(v.max() for v in vals)):
+            raise RefUndefined('particles left the %dD subspace (%s varies)'
+                               % (nnps.dim, ax))
 
 
 class RefIntegrator(object):
@@ -417,10 +441,12 @@ class RefIntegrator(object):
     # ---- what one_timestep may call
     def compute_accelerations(self, index=0, update_nnps=True):
         if update_nnps:
+            require_finite_geometry(self.nnps)
             self.nnps.update()
         self.evals[index].compute(self.t, self.dt)
 
     def update_domain(self):
+        require_finite_geometry(self.nnps)
         self.nnps.update_domain()
 
     def do_post_stage(self, stage_dt, stage):
